@@ -36,6 +36,7 @@ pub struct Params {
     pub try_refuse: Vec<u8>,
     pub opposite_pairs: bool,
     pub max_steps: u64,
+    pub data_pct: u32,
 }
 
 impl Params {
@@ -69,6 +70,7 @@ impl Params {
             try_refuse: vec![0, 0, 10, 20],
             opposite_pairs: true,
             max_steps: 4000,
+            data_pct: 30,
         }
     }
 }
@@ -127,7 +129,16 @@ impl<'p> Gen<'p> {
             slots.push(Slot::Unit(u));
         }
         self.rng.shuffle(&mut slots);
-        WorldSpec { leaves, units, slots, targets: Vec::new(), gates: 0, tags: 0 }
+        // owned data: `&mut` borrows of some arena leaves, listed in any order
+        let mut datas: Vec<UnitSpec> = Vec::new();
+        if free.len() >= 2 && self.rng.chance(self.p.data_pct, 100) {
+            let k = self.rng.range(2, free.len().min(3));
+            let mut ls: Vec<usize> = free.iter().copied().take(k).collect();
+            self.rng.shuffle(&mut ls);
+            let cont = self.pick_cont(ls.len());
+            datas.push(UnitSpec { cont, leaves: ls });
+        }
+        WorldSpec { leaves, units, slots, targets: Vec::new(), datas, gates: 0, tags: 0 }
     }
 
     pub fn pick_cont(&mut self, n: usize) -> ContKind {
@@ -141,8 +152,10 @@ impl<'p> Gen<'p> {
 
     pub fn elems_of(w: &WorldSpec) -> Vec<Elem> {
         let mut v = Vec::new();
+        let borrowed: Vec<usize> = w.datas.iter().flat_map(|d| d.leaves.iter().copied()).collect();
         for s in &w.slots {
             match s {
+                Slot::Leaf(l) if borrowed.contains(l) => {}
                 Slot::Leaf(l) => v.push(Elem::Leaf(*l)),
                 Slot::Unit(u) => v.push(Elem::Unit(*u)),
             }
@@ -209,6 +222,14 @@ impl<'p> Gen<'p> {
     }
 
     pub fn add_targets(&mut self, w: &mut WorldSpec) {
+        // several collections over each piece of owned data, built with new / new_ref / From
+        for d in 0..w.datas.len() {
+            for _ in 0..self.rng.range(2, 3) {
+                let kind = *self.rng.pick(&[CollKind::Boxed, CollKind::Ref, CollKind::Ref, CollKind::Retry]);
+                let poison = kind != CollKind::Ref && self.rng.chance(self.p.poison_coll_pct, 100);
+                w.targets.push(TSpec::OnData { data: d, kind, from: kind == CollKind::Ref && self.rng.chance(1, 3), poison });
+            }
+        }
         let all = Self::elems_of(w);
         let nt = self.r(self.p.targets);
         for i in 0..nt {
@@ -567,6 +588,7 @@ pub fn gen_c08(seed: u64) -> Scenario {
     p.single_pct = 0;
     p.nest_pct = 35;
     p.unit_pct = 40;
+    p.data_pct = 50;
     let mut g = Gen::new(seed, &p);
     let mut w = g.world_base();
     let all = Gen::elems_of(&w);
@@ -591,6 +613,12 @@ pub fn gen_c08(seed: u64) -> Scenario {
             }
         }
         w.targets.push(t);
+    }
+    for d in 0..w.datas.len() {
+        for _ in 0..g.rng.range(2, 3) {
+            let kind = *g.rng.pick(&[CollKind::Boxed, CollKind::Ref, CollKind::Ref]);
+            w.targets.push(TSpec::OnData { data: d, kind, from: kind == CollKind::Ref && g.rng.chance(1, 3), poison: false });
+        }
     }
     let nthreads = g.rng.range(1, 2);
     let mut threads = Vec::new();
@@ -633,6 +661,13 @@ pub fn gen_quiescent(seed: u64, nonacq: bool) -> Scenario {
         let es = g.random_subset(&all, (0, 4));
         let t = g.target_over(&w, &es, 1, true);
         w.targets.push(t);
+    }
+    let mut nt = nt;
+    for d in 0..w.datas.len() {
+        let kind = *g.rng.pick(&[CollKind::Boxed, CollKind::Ref, CollKind::Retry]);
+        // keep tester targets contiguous at the front
+        w.targets.insert(nt, TSpec::OnData { data: d, kind, from: false, poison: false });
+        nt += 1;
     }
     // holders: one per held element
     let mut holders: Vec<Vec<Step>> = Vec::new();
@@ -717,11 +752,16 @@ pub fn gen_c12(seed: u64) -> Scenario {
     let mut g = Gen::new(seed, &p);
     let mut w = g.world_base();
     let all = Gen::elems_of(&w);
-    let nt = g.rng.range(1, 2);
+    let mut nt = g.rng.range(1, 2);
     for _ in 0..nt {
         let es = g.random_subset(&all, (1, 4));
         let t = g.target_over(&w, &es, 1, true);
         w.targets.push(t);
+    }
+    for d in 0..w.datas.len() {
+        let kind = *g.rng.pick(&[CollKind::Boxed, CollKind::Ref, CollKind::Retry]);
+        w.targets.push(TSpec::OnData { data: d, kind, from: false, poison: kind != CollKind::Ref && g.rng.chance(1, 8) });
+        nt += 1;
     }
     let mut main_steps = Vec::new();
     for _ in 0..g.rng.range(1, 2) {
